@@ -37,8 +37,22 @@ def note(rng, params=True):
     return "N %d %d %d %s %s %s %s %s" % (rng.choice(BASES), acc, nat, olen(rng), g, v, t, o)
 
 
+def once(rng):
+    """octave-once marks (1 = ` , -1 = ") directly in front of a lettered note; sometimes right after an octave command at or
+    near the limits 0 / 10, so that the clamp of a mark is exercised"""
+    marks = ",".join(str(rng.choice([1, -1])) for _ in range(rng.choice([1, 1, 1, 2, 2, 3])))
+    c = "U %s %s" % (marks, note(rng))
+    if rng.random() < 0.5:
+        c = "O %d %s" % (rng.choice([0, 0, 1, 9, 10, 10]), c)
+    if rng.random() < 0.5:
+        c += " " + note(rng)          # the note after it sounds in the old octave again
+    return c
+
+
 def leaf(rng):
     k = rng.random()
+    if k < 0.06:
+        return once(rng)
     if k < 0.5:
         return note(rng)
     if k < 0.58:
@@ -50,7 +64,7 @@ def leaf(rng):
     if k < 0.70:
         return "L " + olen(rng, allow_none=(rng.random() < 0.1))
     if k < 0.76:
-        return "O %d" % rng.choice([0, 2, 3, 4, 5, 6, 7, 8, 10, 11, -1])
+        return "O %d" % rng.choice([0, 1, 2, 3, 4, 5, 6, 7, 8, 9, 10, 11, -1])
     if k < 0.81:
         return "V %d" % rng.choice([0, 1, 40, 64, 100, 127, 128, 200])
     if k < 0.85:
